@@ -502,7 +502,13 @@ fn yaml_double_quoted(value: &str) -> String {
 /// Renders the value as-is if it is a plain word (as before), otherwise as
 /// double-quoted YAML scalar
 fn yaml_flow_scalar(value: &str) -> String {
+    // words that YAML reads as null or boolean must be quoted to stay text
+    let reserved = matches!(
+        value.to_ascii_lowercase().as_str(),
+        "null" | "true" | "false"
+    );
     let plain = !value.is_empty()
+        && !reserved
         && value
             .chars()
             .all(|ch| ch.is_ascii_alphanumeric() || matches!(ch, '_' | '.' | '/' | '-'));
